@@ -3,15 +3,15 @@
    followed by Print Assumptions.  NR = exact reals, F = IEEE-754 binary64 (Flocq);
    the model (Signal/Osc.v) is one Gallina term instantiated at both.
 
-   What is NOT proved here: the simplex bound for the ROUNDED (binary64) evaluation
-   (c17_simplex_real is about exact arithmetic; margin 1.6e-4 against a rounding error of
-   ~1e-15; the binary64 evaluation is compared bit-for-bit with the crate on sampled phases
-   and range-sampled on long runs by lib/props/c17.py).  sin is an oracle. *)
+   The simplex bound is proved twice: c17_simplex_real on exact reals, and c17_simplex_ieee /
+   c17_simplex_range for the ROUNDED (binary64) evaluation the code performs (every + - * rounded
+   to nearest even, floor and the integer casts exact; Interval on the real expression with
+   explicit rounding operators, margin 1e-4).  sin is an oracle. *)
 Require Import Floats.SpecFloat.
 Require Import ZArith Reals List.
 From Flocq Require Import Core BinarySingleNaN.
 From Dasp Require Import Base.Float Signal.OscNum Signal.Osc Signal.OscProofs Signal.OscFloatProofs
-  Signal.OscFloatRuns Signal.OscSimplexProofs Signal.OscExamples.
+  Signal.OscFloatRuns Signal.OscSimplexProofs Signal.OscSimplexIEEE Signal.OscExamples.
 Import ListNotations.
 Open Scope R_scope.
 
@@ -119,6 +119,24 @@ Theorem c17_sine_range : forall sin_o : f64 -> f64,
   Forall (fun y => is_finite y = true /\ -1 <= B2R y <= 1) (fst (run F (sine_next F sin_o) (phase_new F s) n)).
 Proof. exact sine_run_range. Qed.
 Print Assumptions c17_sine_range.
+
+(* simplex noise as the code evaluates it: IEEE-754 binary64, every + - * rounded to nearest even
+   (Flocq Bplus/Bminus/Bmult), `floor` = Bnearbyint toward -inf, `as i64` saturating truncation,
+   `as f64` of the corner index exact; PERM lookup, `& 15`, `& 7`, `& 8` on integers.  For EVERY finite
+   argument in [-2^63, 2^63) -- the range on which `floor(x) as i64` does not saturate (and `i0 + 1` does
+   not overflow) -- the result is finite and in [-1, 1] ... *)
+Theorem c17_simplex_ieee : forall x : f64, is_finite x = true ->
+  - 9223372036854775808 <= B2R x < 9223372036854775808 ->
+  is_finite (simplex_noise_1d F x) = true /\ -1 <= B2R (simplex_noise_1d F x) <= 1.
+Proof. exact simplex_ieee. Qed.
+Print Assumptions c17_simplex_ieee.
+
+(* ... hence every frame of every NoiseSimplex run (phase wrapped at 65536.0), any length n, any public
+   step source outside K1 *)
+Theorem c17_simplex_range : forall (s : step_src F) (n : nat), PublicSrc s -> ~ KnownClass_K1 s ->
+  Forall (fun y => is_finite y = true /\ -1 <= B2R y <= 1) (fst (run F (simplex_next F) (phase_new F s) n)).
+Proof. exact simplex_run_range. Qed.
+Print Assumptions c17_simplex_range.
 
 (* noise: all float steps exact; -1 < out <= 1 for every seed, every frame *)
 Theorem c17_noise_exact : forall seed : Z,
